@@ -773,6 +773,13 @@ InflateOK(e, idx) ==
 (* across an edge of a parallelogram (path edge (+) +-pattern edge), so    *)
 (* the claim is made at probes farther than 2 from all those edges.        *)
 (***************************************************************************)
+MapBackOK(v) ==
+  /\ v.qok /\ Len(v.sol) = Len(v.q)
+  /\ \A k \in 1..Len(v.sol) : Len(v.sol[k]) = Len(v.q[k]) /\
+       \A i \in 1..Len(v.sol[k]) : \A c \in 1..2 :
+          GB!Cmp(GB!Mul(GB!AbsB(GB!Sub(GB!Sub(v.sol[k][i][c], v.t[c]), GB!Mul(v.k, GB!FromInt(v.q[k][i][c])))), GB!FromInt(2)),
+                 GB!AbsB(v.k)) <= 0
+
 MinkLast(e) == IF Len(e.path) = 1 THEN 1 ELSE IF e.closed THEN Len(e.path) ELSE Len(e.path) - 1
 MinkSg(e) == IF e.sum THEN 1 ELSE -1
 Shift(c, a, sg) == <<c[1] + sg * a[1], c[2] + sg * a[2]>>
@@ -796,6 +803,10 @@ C08OK(e) ==
        /\ CanonicalAt(e.sol, FALSE, p)
        /\ MinkFar(e, p) => (In(e.sol, p) = MinkTruth(e, p))
        /\ (e.hasSwap /\ MinkFar(e, p)) => SameRegionAt(e.sol, e.solSwap, p)
+       \* the same call with pattern and path multiplied by e.kv.k ("any path whose coordinate sums stay in range"):
+       \* mapped back to base units it describes the same region (3-unit band: 2 + the rounding of the mapping)
+       /\ (FarClosed(p, e.sol, 12) /\ FarClosed(p, e.kv.q, 12)) => (In(e.sol, p) = In(e.kv.q, p))
+  /\ e.kv.out = "ok" /\ MapBackOK(e.kv)
 
 MinkOK(e, idx) ==
   /\ Chk("OUT", idx, OutOK(e))
@@ -859,13 +870,6 @@ DvsIOK(e, idx) == Has(e, "C07") => Chk("C07", idx, C07OK(e))
 (* extent in scaled units is far below one base unit; 1 unit pays for the  *)
 (* rounding of the mapping).                                               *)
 (***************************************************************************)
-MapBackOK(v) ==
-  /\ v.qok /\ Len(v.sol) = Len(v.q)
-  /\ \A k \in 1..Len(v.sol) : Len(v.sol[k]) = Len(v.q[k]) /\
-       \A i \in 1..Len(v.sol[k]) : \A c \in 1..2 :
-          GB!Cmp(GB!Mul(GB!AbsB(GB!Sub(GB!Sub(v.sol[k][i][c], v.t[c]), GB!Mul(v.k, GB!FromInt(v.q[k][i][c])))), GB!FromInt(2)),
-                 GB!AbsB(v.k)) <= 0
-
 MagBand(v) == IF v.kind = "t" THEN 8 ELSE 12
 
 BigPt(v, p) == <<GB!Add(GB!Mul(v.k, GB!FromInt(p[1])), v.t[1]), GB!Add(GB!Mul(v.k, GB!FromInt(p[2])), v.t[2])>>
